@@ -795,7 +795,7 @@ func (db *DB) buildListIdx(bucket string, r *Record) error {
 	case DataRPushFlag:
 		_, _ = db.ListIdx[bucket].RPush(string(r.E.Key), r.E.Value)
 	case DataLRemFlag:
-		countAndValueIndex := strings.Split(string(r.E.Value), SeparatorForListKey)
+		countAndValueIndex := strings.SplitN(string(r.E.Value), SeparatorForListKey, 2)
 		count, _ := strconv2.StrToInt(countAndValueIndex[0])
 		value := []byte(countAndValueIndex[1])
 
